@@ -237,3 +237,55 @@ func cmdVisSched(c Cmd) (interface{}, error) {
 	}
 	return out, nil
 }
+
+// unrot_snapshot: model assumption "what a query takes from the unrotated info is a snapshot".  Flush one block, take the
+// block table the way the column readers do (writer.GetBlockSearchInfoForKey) and the way the request planner does
+// (UnrotatedSegmentInfo.GetUnrotatedBlockInfoForQuery), then flush a second block that introduces new column names and
+// report whether the tables taken before have changed (they are then the writer's live maps: a query reading them while a
+// flush adds a column is an unsynchronised map read/write).
+func init() { reg("unrot_snapshot", cmdUnrotSnapshot) }
+
+func cmdUnrotSnapshot(c Cmd) (interface{}, error) {
+	index := c.str("index")
+	if index == "" {
+		index = "snapidx"
+	}
+	ing := func(id int, extra string) error {
+		body := fmt.Sprintf("{\"index\":{\"_index\":%q}}\n{\"id\":%d,\"g\":%d%s,\"timestamp\":%d}\n", index, id, id%3, extra, 1700000000000+int64(id)*1000)
+		_, _, err := eswriter.HandleBulkBody([]byte(body), nil, 0, 0, false)
+		return err
+	}
+	var zero time.Duration
+	if err := ing(1, ""); err != nil {
+		return nil, err
+	}
+	writer.FlushWipBufferToFile(&zero, nil)
+	var key string
+	writer.UnrotatedInfoLock.RLock()
+	for k, usi := range writer.AllUnrotatedSegmentInfo {
+		if usi.TableName == index {
+			key = k
+		}
+	}
+	writer.UnrotatedInfoLock.RUnlock()
+	if key == "" {
+		return nil, fmt.Errorf("no unrotated segment for %s", index)
+	}
+	bmi, err := writer.GetBlockSearchInfoForKey(key)
+	if err != nil {
+		return nil, err
+	}
+	writer.UnrotatedInfoLock.RLock()
+	_, bmi2, cols2 := writer.AllUnrotatedSegmentInfo[key].GetUnrotatedBlockInfoForQuery()
+	writer.UnrotatedInfoLock.RUnlock()
+	before := []int{len(bmi.CnameDict), len(bmi.AllBmh), len(bmi2.CnameDict), len(bmi2.AllBmh), len(cols2)}
+	for i := 0; i < int(c.i64("new_cols", 3)); i++ {
+		if err := ing(2+i, fmt.Sprintf(",\"late%d\":%d", i, i)); err != nil {
+			return nil, err
+		}
+	}
+	writer.FlushWipBufferToFile(&zero, nil)
+	after := []int{len(bmi.CnameDict), len(bmi.AllBmh), len(bmi2.CnameDict), len(bmi2.AllBmh), len(cols2)}
+	return map[string]interface{}{"names": []string{"reader.CnameDict", "reader.AllBmh", "planner.CnameDict", "planner.AllBmh", "planner.columns"},
+		"before": before, "after": after}, nil
+}
